@@ -10,8 +10,8 @@ CLAIM = ('harness-written policy files (every field present or absent, three fla
          '3-4 name universe per category plus seeded large instances; `-P file target` in text and JSON; verdict and mismatched fields are compared with a reference evaluator written '
          'from the property statement (sizes are the ones the probe protocol really measured at the simulated peer); metamorphic follow-ups: a passing peer with a shrunk list (subset '
          'mode) or grown keys (larger-keys mode) must still pass. Workload only: no schedule or fault of its own')
-TRUST = ('trusted base: refmodels.policy_eval (from the statement), keyword mapping of error field names, the probe-derived sizes taken from the simulated server log; optional host keys '
-         'under subset mode and the CA-size error next to a CA-type error are left open (statement silent)')
+TRUST = ('trusted base: refmodels.policy_eval (from the statement), keyword mapping of error field names, the probe-derived sizes taken from the simulated server log; the CA-size error '
+         'next to a CA-type error is left open (statement silent); optional host keys are removed for the exact-mode comparison only (the statement read literally: under subset mode the list must be drawn from the host-key list)')
 TECHNIQUE = 'deterministic simulation as the end-to-end observation point; reference-model oracle; metamorphic pairs'
 LEVEL = 'exploration'
 BUDGET = {'quick': 200, 'thorough': 2400}
